@@ -202,7 +202,7 @@ def run(ctx):
     corpus_futs = [corpus_pool.submit(corpus_chunk, ch) for ch in chunks if ch]
 
     # ---- (1) generated modules: direct oracles
-    n = 448 if ctx.quick else 9600
+    n = 448 if ctx.quick else 4200
     shards = 8 if ctx.quick else 14
     rows, hangs = gen_shards(ctx, binp, n, shards, thorough)
     cases = [r for r in rows if "id" in r]
@@ -236,9 +236,11 @@ def run(ctx):
             nviol += 1
             if nviol <= 6:
                 ctx.violation(replay_obj(r, ctx.seed, {"oracle": v}),
-                              "%s: %s entry %s args [%s] schedule %s: expected %s, got %s" % (
+                              ("%s: %s entry %s args [%s] schedule %s: expected %s, got %s" % (
                                   v.get("kind"), json.dumps(v.get("ctx")), v.get("entry"), v.get("args"), v.get("schedule"),
-                                  str(v.get("expected"))[:160], str(v.get("actual", v.get("msg")))[:160]))
+                                  str(v.get("expected"))[:160], str(v.get("actual"))[:160])) if "entry" in v else
+                              ("%s: %s %s" % (v.get("kind"), json.dumps(v.get("ctx")),
+                                              json.dumps({k: x for k, x in v.items() if k not in ("kind", "ctx")})[:240])))
     if rejected:
         ctx.violation({"layer": "generator", "rejected": rejected}, "generated modules were rejected by the validator (generator broken)", no_input=True)
     ctx.log("generated: %d modules, %d direct runs, %d schedules, %d interrupts, %d oracle violations" % (
@@ -321,6 +323,7 @@ def run(ctx):
     # ---- (2) the repository's modules (collect)
     cres = [f.result() for f in corpus_futs]
     corpus_pool.shutdown()
+    ncorp = 0
     for rc, out in cres:
         rs = [json.loads(l) for l in out.splitlines() if l.startswith("{")]
         if any("HANG" in r for r in rs):
@@ -336,8 +339,13 @@ def run(ctx):
                 else:
                     cstats["rejected"] += 1
             for v in r.get("viol", []):
+                ncorp += 1
+                if ncorp > 6:
+                    continue
                 ctx.violation({"file": r["file"], "oracle": v, "how_to_replay": ".cache/target/release/c13 corpus %s %s" % (ctx.seed, r["file"])},
-                              "corpus module %s: %s entry %s args [%s] schedule %s" % (os.path.basename(r["file"]), v.get("kind"), v.get("entry"), v.get("args"), v.get("schedule")))
+                              ("corpus module %s: %s entry %s args [%s] schedule %s" % (os.path.basename(r["file"]), v.get("kind"), v.get("entry"), v.get("args"), v.get("schedule")))
+                              if "entry" in v else ("corpus module %s: %s %s" % (os.path.basename(r["file"]), v.get("kind"),
+                                                                               json.dumps({k: x for k, x in v.items() if k not in ("kind", "ctx")})[:240])))
     ctx.notes["corpus"] = cstats
     ctx.log("corpus: %s" % json.dumps(cstats))
 
@@ -346,10 +354,14 @@ def run(ctx):
     rc, out = c.run_bin(binp, ["engine", ctx.seed, ne], timeout=1800)
     ers = [json.loads(l) for l in out.splitlines() if l.startswith("{")]
     estats = {}
+    neng = 0
     for r in ers:
         if "engine_stats" in r:
             estats = r["engine_stats"]
         for v in r.get("viol", []):
+            neng += 1
+            if neng > 6:
+                continue
             ctx.violation({"layer": "v1 engine", "case": r.get("case"), "oracle": v,
                            "how_to_replay": ".cache/target/release/c13 engine %s %s" % (ctx.seed, ne)},
                           "engine: %s (%s)" % (v.get("kind"), json.dumps(r.get("case"))[:200]))
